@@ -149,6 +149,11 @@ func checkC06(c c06Case) *evid.Fail {
 			return evid.F(sig, "%s = %s, expected %s", desc(), got, want.V)
 		}
 	}
+	if f := aliasProbe(v, []*variants.Variant{a, b}, func() (*variants.Variant, error, *evid.Fail) { return runOp(ops, c.Op, a, b) }); f != nil {
+		f.Sig += ":" + c.Op
+		f.Msg = desc() + ": " + f.Msg
+		return f
+	}
 	// mutual consistency of the comparisons on the implementation's own outputs
 	asBool := func(op string, x, y *variants.Variant) (bool, bool) {
 		r, e, bad := runOp(ops, op, x, y)
